@@ -14,7 +14,7 @@ conflict checks.
 from __future__ import annotations
 
 import logging
-from dataclasses import dataclass
+from dataclasses import dataclass, field
 from enum import Enum
 from typing import TYPE_CHECKING, Any, Protocol, runtime_checkable
 
@@ -99,6 +99,9 @@ class _CommitLogEntry:
     version: int
     keys_written: frozenset[str]
     keys_read: frozenset[str]
+    # Value each written key had just before this commit (None if absent);
+    # lets older snapshots keep reading the state they started from.
+    before_images: dict[str, Any] = field(default_factory=dict)
 
 
 # ---------------------------------------------------------------------------
@@ -162,6 +165,8 @@ class StorageTransaction:
 
         # Read from underlying store
         value = yield from self._manager._store.get(key)
+        if self._isolation != IsolationLevel.READ_COMMITTED:
+            value = self._manager._value_at_snapshot(self, key, value)
         return value
 
     def write(self, key: str, value: Any) -> Generator[float]:
@@ -200,6 +205,7 @@ class StorageTransaction:
             return False
 
         # Apply writes
+        before_images = {key: self._manager._store.get_sync(key) for key in self._write_set}
         for key, value in self._write_set.items():
             self._manager._store.put_sync(key, value)
 
@@ -210,6 +216,7 @@ class StorageTransaction:
             version=self._manager._version,
             keys_written=frozenset(self._write_set.keys()),
             keys_read=frozenset(self._read_set),
+            before_images=before_images,
         )
         self._manager._commit_log.append(entry)
 
@@ -397,6 +404,18 @@ class TransactionManager(Entity):
                     return True
 
         return False
+
+    def _value_at_snapshot(self, tx: StorageTransaction, key: str, current: Any) -> Any:
+        """Value of ``key`` as of ``tx``'s snapshot, given its current value.
+
+        The first commit after the snapshot that wrote the key holds the
+        value the snapshot saw; if nobody wrote it since, the current
+        value is the snapshot value.
+        """
+        for entry in self._commit_log:
+            if entry.version > tx._snapshot_version and key in entry.keys_written:
+                return entry.before_images.get(key)
+        return current
 
     def _record_duration(self, start_time_s: float) -> None:
         """Record transaction duration for stats."""
